@@ -20,7 +20,7 @@ package main
 // whose call sites were inlined is dropped from the package's declaration list (it is dead in the normalised
 // program), so who-writes inventories do not see it twice.
 //
-// What it cannot do: helpers used in expression position (`append(x, H(y))`, `if H(x) {`), returns inside loops,
+// What it cannot do: helpers used in conditionally evaluated expression position (`if a && H(x) {`, loop conditions),
 // recursion. Such extractions remain "undecided" for the rules that cannot find their construct.
 
 import (
@@ -1095,14 +1095,32 @@ func callerWrites(info *types.Info, body ast.Node, v *types.Var) bool {
 // a call of a planned helper, and every other call in s is a builtin or a conversion. The operand is replaced by a
 // fresh temporary and `tmp := H(a…)` is returned, to be placed (and inlined) before s.
 func (nz *normaliser) hoistNestedCall(p *normUnit, info *types.Info, s ast.Stmt, plan map[*types.Func]*helperInfo) (*ast.AssignStmt, bool) {
-	switch s.(type) {
+	var scope ast.Node = s
+	switch x := s.(type) {
 	case *ast.ExprStmt, *ast.AssignStmt:
+	case *ast.IfStmt:
+		// `if H(a) {` / `if !H(a) {` / `if H(a) == v {`: the condition is evaluated exactly once before the branches,
+		// so the call may move in front of the statement — unless && / || make its evaluation conditional
+		if x.Init != nil || x.Cond == nil {
+			return nil, false
+		}
+		shortCircuit := false
+		ast.Inspect(x.Cond, func(m ast.Node) bool {
+			if be, ok := m.(*ast.BinaryExpr); ok && (be.Op == token.LAND || be.Op == token.LOR) {
+				shortCircuit = true
+			}
+			return true
+		})
+		if shortCircuit {
+			return nil, false
+		}
+		scope = x.Cond
 	default:
 		return nil, false
 	}
 	var target *ast.CallExpr
 	others := false
-	ast.Inspect(s, func(m ast.Node) bool {
+	ast.Inspect(scope, func(m ast.Node) bool {
 		switch x := m.(type) {
 		case *ast.FuncLit:
 			others = true
@@ -1156,7 +1174,9 @@ func (nz *normaliser) hoistNestedCall(p *normUnit, info *types.Info, s ast.Stmt,
 	info.Defs[def] = obj
 	info.Uses[use] = obj
 	info.Types[use] = types.TypeAndValue{Type: tv.Type}
-	if !replaceExpr(s, target, use) {
+	if ifs, isIf := s.(*ast.IfStmt); isIf && unparen(ifs.Cond) == ast.Expr(target) {
+		ifs.Cond = use
+	} else if !replaceExpr(scope, target, use) {
 		return nil, false
 	}
 	return &ast.AssignStmt{Lhs: []ast.Expr{def}, TokPos: s.Pos(), Tok: token.DEFINE, Rhs: []ast.Expr{target}}, true
